@@ -960,6 +960,61 @@ theorem source_write_then_read (c c' : Cont R) (idx : List Nat) (e : R × Nat) :
     rw [position_eq]
     simp [hb]
 
+/-! ### containers over views -/
+
+/-- **An operator applied to a view of a container is the operator applied to the viewed
+    records.**  A container made by `from_existing` over a view that shows the source's elements
+    at `offsets` (in range, as many as the view's shape has cells, at least one) is well formed,
+    its element-by-element records are the source's records at those offsets, and every
+    one-container operation on it — and every two-container operation with another container of
+    the view's shape — gives the records, tapes and panic of the scalar operator applied to the
+    viewed records in the view's row-major order. -/
+theorem operator_through_view (c : Cont R) (hc : c.WF) (vshape : Shape String) (offsets : List Nat)
+    (hin : ∀ o ∈ offsets, o < c.elems.length) (hlen : offsets.length = elements vshape)
+    (hne : offsets ≠ []) :
+    (c.viewBy vshape offsets).WF
+      ∧ (c.viewBy vshape offsets).toRecs = offsets.filterMap (fun o => c.toRecs[o]?)
+      ∧ (∀ (op : UOp R) (w : World R),
+          asRecs (op.container (c.viewBy vshape offsets) w)
+            = Cont.mapRecs op.scalar (offsets.filterMap fun o => c.toRecs[o]?) w)
+      ∧ (∀ (op : BOp R) (b : Cont R) (w : World R), b.WF → b.shape = vshape →
+          (op.container (c.viewBy vshape offsets) b w).map asRecs
+            = zipRecs op.scalar (offsets.filterMap fun o => c.toRecs[o]?) b.toRecs w) := by
+  have hfm : ∀ offs : List Nat, (∀ o ∈ offs, o < c.elems.length) →
+      (offs.filterMap fun o => c.elems[o]?).length = offs.length
+        ∧ ∀ e ∈ (offs.filterMap fun o => c.elems[o]?), e ∈ c.elems := by
+    intro offs
+    induction offs with
+    | nil => intro _; exact ⟨rfl, fun e he => by cases he⟩
+    | cons o rest ih =>
+      intro h
+      have ho : o < c.elems.length := h o (by simp)
+      have ih' := ih fun x hx => h x (by simp [hx])
+      simp only [List.filterMap_cons, List.getElem?_eq_getElem ho, List.length_cons, ih'.1]
+      refine ⟨trivial, ?_⟩
+      intro e he
+      rcases List.mem_cons.mp he with rfl | he
+      · exact List.getElem_mem ho
+      · exact ih'.2 e he
+  have hwf : (c.viewBy vshape offsets).WF := by
+    refine ⟨by simp only [Cont.viewBy, (hfm offsets hin).1, hlen], ?_, ?_⟩
+    · intro hnil
+      have : (offsets.filterMap fun o => c.elems[o]?).length = 0 := by
+        simp only [Cont.viewBy] at hnil; rw [hnil]; rfl
+      rw [(hfm offsets hin).1] at this
+      exact hne (List.eq_nil_of_length_eq_zero this)
+    · intro hh e he
+      exact hc.const_zero hh e ((hfm offsets hin).2 e he)
+  have hrecs : (c.viewBy vshape offsets).toRecs = offsets.filterMap (fun o => c.toRecs[o]?) := by
+    simp only [Cont.viewBy, Cont.toRecs, List.map_filterMap, List.getElem?_map]
+  refine ⟨hwf, hrecs, ?_, ?_⟩
+  · intro op w
+    rw [(container_eq_elementwise_unary op _ w).1, hrecs]
+  · intro op b w hb hs
+    rw [container_eq_elementwise_binary op _ b w hwf hb (by simp [Cont.viewBy, hs]), hrecs]
+
+example : ∀ o ∈ [1, 0], o < [((2 : ℚ), 0), (3, 1)].length := by decide
+
 /-! ### the by-value forms -/
 
 /-- **`do_unary_assign`, `do_binary_left_assign`, `do_binary_right_assign`, `do_reset`** (tensor
@@ -1466,6 +1521,341 @@ theorem program_derivatives_eq_elementwise (prog : List (CInstr R))
 
 
 example : AllWF ([] : List (Cont ℚ)) := fun _ h => by cases h
+
+/-! ### programs keep the tapes well formed: every derivative request of a program succeeds -/
+
+/-- **Programs keep their state sound.**  Started on well-formed tapes (the empty ones, or any
+    tapes C04's operations can have produced) with containers whose positions are on their
+    tapes, every program of container operations (without `WengertList::clear`) ends — if it
+    does not panic — in a state with well-formed containers, well-formed tapes that only grew,
+    and every container's positions on its tape. -/
+theorem program_keeps_state_sound (prog : List (CInstr R)) (cs : List (Cont R)) (w : World R)
+    (h0 : SoundState cs w) (cs' : List (Cont R)) (w' : World R)
+    (hrun : runModel prog cs w = .ok (cs', w')) : SoundState cs' w' ∧ Grows w w' := by
+  induction prog generalizing cs w with
+  | nil =>
+    simp only [runModel] at hrun
+    injection hrun with hrun; injection hrun with h1 h2; subst h1; subst h2
+    exact ⟨h0, Grows.refl w⟩
+  | cons i rest ih =>
+    simp only [runModel] at hrun
+    cases hm : i.stepModel cs w with
+    | panic k => rw [hm] at hrun; cases hrun
+    | ok r =>
+      obtain ⟨cs1, w1⟩ := r
+      rw [hm] at hrun
+      have hwf1 := (history_step_eq_elementwise i cs w h0.1).2 cs1 w1 hm
+      -- one step keeps the state sound
+      have hstep : SoundState cs1 w1 ∧ Grows w w1 := by
+        have same : ∀ c : Cont R, c.WF → OnTape w c → Keeps w c w :=
+          fun c _ hc => ⟨h0.2.1, Grows.refl w, hc⟩
+        cases i with
+        | vars h shape vals =>
+          simp only [CInstr.stepModel] at hm
+          split at hm
+          · cases hm
+          · rename_i hbad
+            injection hm with hm; injection hm with h1 h2; subst h1; subst h2
+            have hlen : vals.length = elements shape := by
+              by_cases h : vals.length = elements shape
+              · exact h
+              · exact absurd (Or.inl h) hbad
+            have k := variables_keeps h shape vals w h0.2.1 hlen
+            exact ⟨soundState_append h0 (hwf1 _ (by simp)) k, k.2.1⟩
+        | consts shape vals =>
+          simp only [CInstr.stepModel] at hm
+          split at hm
+          · cases hm
+          · injection hm with hm; injection hm with h1 h2; subst h1; subst h2
+            exact ⟨soundState_append h0 (hwf1 _ (by simp))
+              ⟨h0.2.1, Grows.refl w, fun h hh => by simp [Cont.constants] at hh⟩, Grows.refl w⟩
+        | un op a =>
+          simp only [CInstr.stepModel] at hm
+          cases hc : cs[a]? with
+          | none => rw [hc] at hm; cases hm
+          | some c =>
+            rw [hc] at hm
+            injection hm with hm; injection hm with h1 h2; subst h1; subst h2
+            have k := (tape_invariant w h0.2.1).2.2.1 op c (h0.2.2 c (List.mem_of_getElem? hc))
+            exact ⟨soundState_append h0 (hwf1 _ (by simp)) k, k.2.1⟩
+        | bin op a b =>
+          simp only [CInstr.stepModel] at hm
+          cases hx : cs[a]? with
+          | none => rw [hx] at hm; cases hm
+          | some x =>
+            cases hy : cs[b]? with
+            | none => rw [hx, hy] at hm; cases hm
+            | some y =>
+              rw [hx, hy] at hm
+              simp only [] at hm
+              cases hb : op.container x y w with
+              | panic k => rw [hb] at hm; cases hm
+              | ok r =>
+                obtain ⟨c0, w0⟩ := r
+                rw [hb] at hm
+                simp only [Outcome.map] at hm
+                injection hm with hm; injection hm with h1 h2; subst h1; subst h2
+                have hxm := List.mem_of_getElem? hx
+                have hym := List.mem_of_getElem? hy
+                have k := (tape_invariant w h0.2.1).2.2.2.1 op x y c0 w0 (h0.1 x hxm) (h0.1 y hym)
+                  (h0.2.2 x hxm) (h0.2.2 y hym) hb
+                exact ⟨soundState_append h0 (hwf1 _ (by simp)) k, k.2.1⟩
+        | matmulT a b =>
+          simp only [CInstr.stepModel] at hm
+          cases hx : cs[a]? with
+          | none => rw [hx] at hm; cases hm
+          | some x =>
+            cases hy : cs[b]? with
+            | none => rw [hx, hy] at hm; cases hm
+            | some y =>
+              rw [hx, hy] at hm
+              simp only [] at hm
+              cases hb : x.matmulTensor y w with
+              | panic k => rw [hb] at hm; cases hm
+              | ok r =>
+                obtain ⟨c0, w0⟩ := r
+                rw [hb] at hm
+                simp only [Outcome.map] at hm
+                injection hm with hm; injection hm with h1 h2; subst h1; subst h2
+                have k := (tape_invariant w h0.2.1).2.2.2.2 x y c0 w0
+                  (h0.2.2 x (List.mem_of_getElem? hx)) (h0.2.2 y (List.mem_of_getElem? hy)) (Or.inl hb)
+                exact ⟨soundState_append h0 (hwf1 _ (by simp)) k, k.2.1⟩
+        | matmulM a b =>
+          simp only [CInstr.stepModel] at hm
+          cases hx : cs[a]? with
+          | none => rw [hx] at hm; cases hm
+          | some x =>
+            cases hy : cs[b]? with
+            | none => rw [hx, hy] at hm; cases hm
+            | some y =>
+              rw [hx, hy] at hm
+              simp only [] at hm
+              cases hb : x.matmulMatrix y w with
+              | panic k => rw [hb] at hm; cases hm
+              | ok r =>
+                obtain ⟨c0, w0⟩ := r
+                rw [hb] at hm
+                simp only [Outcome.map] at hm
+                injection hm with hm; injection hm with h1 h2; subst h1; subst h2
+                have k := (tape_invariant w h0.2.1).2.2.2.2 x y c0 w0
+                  (h0.2.2 x (List.mem_of_getElem? hx)) (h0.2.2 y (List.mem_of_getElem? hy)) (Or.inr hb)
+                exact ⟨soundState_append h0 (hwf1 _ (by simp)) k, k.2.1⟩
+        | reset a =>
+          simp only [CInstr.stepModel] at hm
+          cases hc : cs[a]? with
+          | none => rw [hc] at hm; cases hm
+          | some c =>
+            rw [hc] at hm
+            injection hm with hm; injection hm with h1 h2; subst h1; subst h2
+            have hcm := List.mem_of_getElem? hc
+            have k := reset_keeps c w h0.2.1 (h0.1 c hcm)
+            exact ⟨soundState_set h0 a (reset_wf c w (h0.1 c hcm)) k, k.2.1⟩
+        | unAssign op a =>
+          simp only [CInstr.stepModel] at hm
+          cases hc : cs[a]? with
+          | none => rw [hc] at hm; cases hm
+          | some c =>
+            rw [hc] at hm
+            injection hm with hm; injection hm with h1 h2; subst h1; subst h2
+            have hcm := List.mem_of_getElem? hc
+            have k := unary_keeps c op.fns.1 op.fns.2 w h0.2.1 (h0.2.2 c hcm)
+            have e := unaryAssign_eq c op.fns.1 op.fns.2 w (h0.1 c hcm).const_zero
+            have k' : Keeps w (c.unaryAssign op.fns.1 op.fns.2 w).1 (c.unaryAssign op.fns.1 op.fns.2 w).2 := by
+              rw [e]; exact ⟨k.1, k.2.1, fun h hh x hx => k.2.2 h hh x hx⟩
+            exact ⟨soundState_set h0 a (unaryAssign_wf c _ _ w (h0.1 c hcm)) k', k'.2.1⟩
+        | leftAssign op a b =>
+          simp only [CInstr.stepModel] at hm
+          cases hx : cs[a]? with
+          | none => rw [hx] at hm; cases hm
+          | some x =>
+            cases hy : cs[b]? with
+            | none => rw [hx, hy] at hm; cases hm
+            | some y =>
+              rw [hx, hy] at hm
+              simp only [] at hm
+              rw [binaryLeftAssign_eq] at hm
+              cases hb : x.binary y op.fns.1 op.fns.2.1 op.fns.2.2 w with
+              | panic k => rw [hb] at hm; cases hm
+              | ok r =>
+                obtain ⟨c0, w0⟩ := r
+                rw [hb] at hm
+                simp only [Outcome.map] at hm
+                injection hm with hm; injection hm with h1 h2; subst h1; subst h2
+                have hxm := List.mem_of_getElem? hx
+                have hym := List.mem_of_getElem? hy
+                have k := binary_keeps x y _ _ _ w h0.2.1 (h0.2.2 x hxm) (h0.2.2 y hym) (h0.1 x hxm)
+                  (h0.1 y hym) c0 w0 hb
+                exact ⟨soundState_set h0 a (hwf1 _ (mem_set_of_getElem? hx))
+                  ⟨k.1, k.2.1, fun h hh e he => k.2.2 h hh e he⟩, k.2.1⟩
+        | rightAssign op a b =>
+          simp only [CInstr.stepModel] at hm
+          cases hx : cs[a]? with
+          | none => rw [hx] at hm; cases hm
+          | some x =>
+            cases hy : cs[b]? with
+            | none => rw [hx, hy] at hm; cases hm
+            | some y =>
+              rw [hx, hy] at hm
+              simp only [] at hm
+              rw [(do_forms_eq x y id id _ _ _ w).2.2.1] at hm
+              unfold Cont.binaryRightAssign at hm
+              rw [binaryLeftAssign_eq] at hm
+              cases hb : y.binary x (fun v u => op.fns.1 u v) (fun v u => op.fns.2.2 u v)
+                  (fun v u => op.fns.2.1 u v) w with
+              | panic k => rw [hb] at hm; cases hm
+              | ok r =>
+                obtain ⟨c0, w0⟩ := r
+                rw [hb] at hm
+                simp only [Outcome.map] at hm
+                injection hm with hm; injection hm with h1 h2; subst h1; subst h2
+                have hxm := List.mem_of_getElem? hx
+                have hym := List.mem_of_getElem? hy
+                have k := binary_keeps y x _ _ _ w h0.2.1 (h0.2.2 y hym) (h0.2.2 x hxm) (h0.1 y hym)
+                  (h0.1 x hxm) c0 w0 hb
+                exact ⟨soundState_set h0 b (hwf1 _ (mem_set_of_getElem? hy))
+                  ⟨k.1, k.2.1, fun h hh e he => k.2.2 h hh e he⟩, k.2.1⟩
+        | clone a =>
+          simp only [CInstr.stepModel] at hm
+          cases hc : cs[a]? with
+          | none => rw [hc] at hm; cases hm
+          | some c =>
+            rw [hc] at hm
+            simp only [] at hm
+            have hcl : Cont.cloneFrom c c.clone = c := by
+              rw [(clone_eq c c).1]; exact (clone_eq c c).2.1
+            rw [hcl] at hm
+            injection hm with hm; injection hm with h1 h2; subst h1; subst h2
+            have hcm := List.mem_of_getElem? hc
+            exact ⟨soundState_append h0 (h0.1 c hcm) (same c (h0.1 c hcm) (h0.2.2 c hcm)), Grows.refl w⟩
+        | viaRecord a =>
+          simp only [CInstr.stepModel] at hm
+          cases hc : cs[a]? with
+          | none => rw [hc] at hm; cases hm
+          | some c =>
+            rw [hc] at hm
+            simp only [] at hm
+            have hcm := List.mem_of_getElem? hc
+            simp only [Cont.intoRecord, Cont.intoRecordRef] at hm
+            cases he : c.elems with
+            | nil => exact absurd he (h0.1 c hcm).nonempty
+            | cons e es =>
+              rw [he] at hm
+              injection hm with hm; injection hm with h1 h2; subst h1; subst h2
+              refine ⟨soundState_append h0 (hwf1 _ (by simp)) ⟨h0.2.1, Grows.refl w, ?_⟩, Grows.refl w⟩
+              intro h hh x hx
+              simp only [Cont.fromRecordRef, Rec.fromExisting, Rec.clone, List.mem_singleton] at hx hh
+              subst hx
+              exact h0.2.2 c hcm h hh e (by rw [he]; simp)
+        | elem a idx =>
+          simp only [CInstr.stepModel] at hm
+          cases hc : cs[a]? with
+          | none => rw [hc] at hm; cases hm
+          | some c =>
+            rw [hc] at hm
+            simp only [] at hm
+            have hcm := List.mem_of_getElem? hc
+            simp only [Cont.getAsRecord, Cont.tryGetAsRecord] at hm
+            cases hp : Cont.position c.shape idx with
+            | none => rw [hp] at hm; cases hm
+            | some k =>
+              rw [hp] at hm
+              simp only [] at hm
+              cases hek : c.elems[k]? with
+              | none => rw [hek] at hm; cases hm
+              | some e =>
+                rw [hek] at hm
+                simp only [Option.map_some] at hm
+                injection hm with hm; injection hm with h1 h2; subst h1; subst h2
+                refine ⟨soundState_append h0 (hwf1 _ (by simp)) ⟨h0.2.1, Grows.refl w, ?_⟩, Grows.refl w⟩
+                intro h hh x hx
+                simp only [Cont.fromRecord, List.mem_singleton] at hx hh
+                subst hx
+                exact h0.2.2 c hcm h hh e (List.mem_of_getElem? hek)
+        | swap a i j =>
+          simp only [CInstr.stepModel] at hm
+          cases hc : cs[a]? with
+          | none => rw [hc] at hm; cases hm
+          | some c =>
+            rw [hc] at hm
+            simp only [] at hm
+            have hcm := List.mem_of_getElem? hc
+            cases hpi : Cont.position c.shape i with
+            | none => rw [hpi] at hm; cases hm
+            | some pi =>
+              cases hpj : Cont.position c.shape j with
+              | none => rw [hpi, hpj] at hm; cases hm
+              | some pj =>
+                rw [hpi, hpj] at hm
+                injection hm with hm; injection hm with h1 h2; subst h1; subst h2
+                refine ⟨soundState_set h0 a (swapElems_wf c pi pj (h0.1 c hcm))
+                  ⟨h0.2.1, Grows.refl w, ?_⟩, Grows.refl w⟩
+                intro h hh e he
+                have hon := h0.2.2 c hcm
+                unfold Cont.swapElems at he hh
+                cases hxi : c.elems[pi]? with
+                | none => rw [hxi] at he hh; exact hon h hh e he
+                | some x =>
+                  cases hxj : c.elems[pj]? with
+                  | none => rw [hxi, hxj] at he hh; exact hon h hh e he
+                  | some y =>
+                    rw [hxi, hxj] at he hh
+                    simp only at he hh
+                    rcases List.mem_or_eq_of_mem_set he with he | rfl
+                    · rcases List.mem_or_eq_of_mem_set he with he | rfl
+                      · exact hon h hh e he
+                      · exact hon h hh _ (List.mem_of_getElem? hxj)
+                    · exact hon h hh _ (List.mem_of_getElem? hxi)
+        | fromIter a =>
+          simp only [CInstr.stepModel] at hm
+          cases hc : cs[a]? with
+          | none => rw [hc] at hm; cases hm
+          | some c =>
+            rw [hc] at hm
+            simp only [] at hm
+            have hcm := List.mem_of_getElem? hc
+            rw [fromIterTensor_self c (h0.1 c hcm)] at hm
+            by_cases hv : validateDimensions c.shape c.elems.length = none
+            · rw [if_pos hv] at hm
+              simp only [] at hm
+              injection hm with hm; injection hm with h1 h2; subst h1; subst h2
+              exact ⟨soundState_append h0 (h0.1 c hcm) (same c (h0.1 c hcm) (h0.2.2 c hcm)), Grows.refl w⟩
+            · rw [if_neg hv] at hm
+              cases hm
+      obtain ⟨hs, hg⟩ := ih cs1 w1 hstep.1 hrun
+      exact ⟨hs, hstep.2.trans hg⟩
+
+/-- **Every derivative request after a program succeeds**: from the empty state on the empty
+    tapes (no hypotheses left), whatever program ran, `derivatives()` of every variable
+    container of the final state returns one vector per element, each as long as the tape, and
+    they are the reverse sweeps of the element-by-element records. -/
+theorem program_from_scratch (prog : List (CInstr R)) (cs' : List (Cont R)) (w' : World R)
+    (hrun : runModel prog [] World.empty = .ok (cs', w')) :
+    runSpec prog [] World.empty = .ok (cs'.map Cont.abs, w')
+      ∧ ∀ c ∈ cs', c.WF ∧ c.derivatives w' = recsDerivatives c.abs.2 w'
+          ∧ ∀ h, c.history = some h →
+              ∃ ds, c.derivatives w' = .ok (some ds) ∧ ds.length = c.elems.length
+                ∧ ∀ d ∈ ds, d.length = (w' h).length := by
+  have hwf0 : AllWF ([] : List (Cont R)) := fun _ h => by cases h
+  have h0 : SoundState ([] : List (Cont R)) (World.empty : World R) :=
+    ⟨hwf0, fun _ => by simp [World.empty, Tape.WF], fun _ h => by cases h⟩
+  have key := program_derivatives_eq_elementwise prog [] World.empty hwf0 cs' w' hrun
+  have sound := (program_keeps_state_sound prog [] World.empty h0 cs' w' hrun).1
+  refine ⟨by simpa using key.1, ?_⟩
+  intro c hc
+  exact ⟨sound.1 c hc, key.2 c hc, fun h hh => derivatives_total c w' h hh sound.2.1 (sound.2.2 c hc)⟩
+
+/-- a program that runs: a constants container, its clone, an element of it -/
+example : ∃ r, runModel [CInstr.consts [("a", 1)] [(1 : R)], CInstr.clone 0, CInstr.elem 1 [0]]
+    [] (World.empty : World R) = .ok r :=
+  ⟨_, by simp [runModel, CInstr.stepModel, elements, prod, Cont.constants, Cont.clone,
+    Cont.cloneFrom, Cont.getAsRecord, Cont.tryGetAsRecord, Cont.position, getIndexDirect,
+    getIndexDirectGo, computeStrides]; rfl⟩
+
+example : SoundState ([] : List (Cont ℚ)) (World.empty : World ℚ) := by
+  refine ⟨?_, ?_, ?_⟩
+  · intro c h; cases h
+  · intro h; simp [World.empty, Tape.WF]
+  · intro c h; cases h
 
 /-! ### the pinned commit: what the repairs change (kernel evaluation on concrete witnesses) -/
 
